@@ -244,6 +244,53 @@ fn fidelity(case: &Case, obs: &mut Obs) -> PropResult {
 	Ok(())
 }
 
+/// the libFuzzer target `c01_structured` and its replay: bytes -> model + encoding choices -> fidelity
+pub fn structured_from_bytes(data: &[u8], obs: &mut Obs) -> PropResult {
+	if data.len() < 4 {
+		return Ok(());
+	}
+	let split = ((data[0] as usize * data.len()) >> 8).max(1).min(data.len() - 1);
+	let (a, b) = data.split_at(split);
+	let model = class_from_stream(a, 4, 40);
+	let ch = Choices { pool_seed: b.first().copied().unwrap_or(0) as u64, attr_seed: b.get(1).copied().unwrap_or(0) as u64, stream: b.to_vec(), junk_pool: b.get(2).copied().unwrap_or(0) % 8, junk_first: b.get(3).copied().unwrap_or(0) % 2 == 1, pool_first: vec![] };
+	let Ok(enc) = encode(&model, &ch) else { return Ok(()) };
+	let mut expected = model.canon();
+	apply_reader_masks(&mut expected, obs);
+	let got = read_and_project(&enc.bytes)?;
+	if got != expected {
+		return Err(format!("the class the reader delivers differs from the class file: (file vs reader) {}", first_diff(&expected, &got)));
+	}
+	Ok(())
+}
+
+fn fuzz(ctx: &mut Ctx) {
+	let sub = "fuzz_structured";
+	let by_value = |v: &serde_json::Value, obs: &mut Obs| -> PropResult { structured_from_bytes(&crate::props::c16::unhex(v["data_hex"].as_str().unwrap_or("")), obs) };
+	if ctx.in_replay() {
+		if let Some(v) = ctx.replay_case(sub) {
+			let mut obs = ctx.new_obs();
+			if let Err(e) = crate::engine::no_panic(|| by_value(&v, &mut obs)).and_then(|x| x) {
+				ctx.push_violation(sub, e);
+			}
+		}
+		return;
+	}
+	ctx.run_saved_values(sub, &by_value);
+	if ctx.tier != crate::engine::Tier::Thorough {
+		return;
+	}
+	let seeds: Vec<Vec<u8>> = (0..32u8).map(|i| (0..200).map(|k| (k as u8).wrapping_mul(i.wrapping_mul(7).wrapping_add(3))).collect()).collect();
+	let o = crate::fuzzrun::campaign(ctx, "c01_structured", 120, &seeds, 2048);
+	let template = ctx.new_obs();
+	let _ = template;
+	let open: Vec<String> = ctx.findings.open_ids("C01").into_iter().collect();
+	crate::fuzzrun::report(ctx, sub, "c01_structured", o, &|input| {
+		let ids: Vec<&str> = open.iter().map(|s| s.as_str()).collect();
+		let mut obs = Obs::with_open(&ids);
+		(serde_json::json!({"data_hex": crate::props::c16::hex(input)}), crate::engine::no_panic(|| structured_from_bytes(input, &mut obs)).and_then(|x| x))
+	});
+}
+
 /// corpus classes (javac output): two independent parsers must agree
 fn corpus(ctx: &mut Ctx) {
 	let files = crate::corpus::load();
@@ -303,4 +350,5 @@ pub fn run(ctx: &mut Ctx) {
 	ctx.run_sub("reader_fidelity", ctx.tier.pick(24000, 1200000), strategy, fidelity);
 	ctx.run_sub("large_methods", ctx.tier.pick(600, 30000), crate::props::c02::geo_strategy, large);
 	corpus(ctx);
+	fuzz(ctx);
 }
